@@ -95,6 +95,9 @@ struct Response {
 struct Success {
     static std::optional<Success> fromDom(const QDomElement &);
     void toXml(QXmlStreamWriter *writer) const;
+
+    // additional data with success (RFC 6120, 6.4.6)
+    QByteArray additionalData;
 };
 
 }  // namespace Sasl
@@ -381,6 +384,13 @@ public:
     virtual void setCredentials(const QXmpp::Private::Credentials &) = 0;
     virtual QXmpp::Private::SaslMechanism mechanism() const = 0;
     virtual std::optional<QByteArray> respond(const QByteArray &challenge) = 0;
+    /// Called when the server reports success (with the additional data of the success element, if any). Returns false
+    /// if the mechanism authenticates the server and the server has not proven its identity.
+    virtual bool finish(const QByteArray &additionalData)
+    {
+        Q_UNUSED(additionalData)
+        return true;
+    }
 
     static bool isMechanismAvailable(QXmpp::Private::SaslMechanism, const QXmpp::Private::Credentials &);
     static std::unique_ptr<QXmppSaslClient> create(const QString &mechanism, QObject *parent = nullptr);
@@ -522,6 +532,7 @@ public:
     void setCredentials(const QXmpp::Private::Credentials &) override;
     QXmpp::Private::SaslMechanism mechanism() const override { return { m_mechanism }; }
     std::optional<QByteArray> respond(const QByteArray &challenge) override;
+    bool finish(const QByteArray &additionalData) override;
 
 private:
     QXmpp::Private::SaslScramMechanism m_mechanism;
